@@ -134,7 +134,7 @@ func run(c *driver.Ctx) {
 		}
 	}()
 
-	ncases := c.Pick(520, 52000)
+	ncases := c.Pick(540, 54000)
 	for i := 0; i < ncases; i++ {
 		if !c.Take() {
 			continue
